@@ -165,6 +165,9 @@ pub enum Ev {
     DepAdd { txid: usize, dep: Option<usize> },
     DepRemove { txid: usize, handoff: Option<usize> },
     KeyTx { txid: usize },
+    DepBlocked { txid: usize, dep: usize },
+    DepOnboard { txid: usize },
+    DepClaim { txid: usize, handoff: bool },
     PublishCommit { index: usize },
     PublishFinality { index: usize },
     Installed { outcomes: usize, committed_idx: usize },
@@ -203,6 +206,9 @@ impl Ev {
             Ev::TimerFired => 21,
             Ev::Note { .. } => 22,
             Ev::Diag(_) => 23,
+            Ev::DepOnboard { .. } => 24,
+            Ev::DepClaim { .. } => 25,
+            Ev::DepBlocked { .. } => 26,
         }
     }
 }
@@ -238,6 +244,9 @@ fn own_event(e: Event<'_>) -> Ev {
         Event::DepAdd { txid, dep } => Ev::DepAdd { txid, dep },
         Event::DepRemove { txid, handoff } => Ev::DepRemove { txid, handoff },
         Event::KeyTx { txid } => Ev::KeyTx { txid },
+        Event::DepOnboard { txid } => Ev::DepOnboard { txid },
+        Event::DepBlocked { txid, dep } => Ev::DepBlocked { txid, dep },
+        Event::DepClaim { txid, handoff } => Ev::DepClaim { txid, handoff },
         Event::PublishCommit { index } => Ev::PublishCommit { index },
         Event::PublishFinality { index } => Ev::PublishFinality { index },
         Event::Installed { outcomes, committed_idx } => Ev::Installed { outcomes, committed_idx },
@@ -931,6 +940,27 @@ impl Controller {
     }
     pub fn expect_threads(&self, n: usize) {
         self.run_begin(n)
+    }
+    /// Block the calling (baton-holding) thread until every expected thread has registered, so
+    /// that the set of schedulable threads does not depend on OS timing.
+    pub fn wait_for_threads(&self) {
+        if !self.is_active() {
+            return;
+        }
+        let mut g = self.lock();
+        let mut waited = 0;
+        while g.active && !g.released && g.threads.len() < g.expected_threads + 1 {
+            let (guard, to) = self.reg_cv.wait_timeout(g, Duration::from_millis(500)).unwrap_or_else(|e| e.into_inner());
+            g = guard;
+            if to.timed_out() {
+                waited += 1;
+                if waited > 40 {
+                    g.inconclusive = Some("threads did not register within 20s".into());
+                    self.release(g);
+                    return;
+                }
+            }
+        }
     }
 }
 
